@@ -7,7 +7,7 @@ from vf.ob import obligation, shard
 from tartiflette import Resolver, Subscription
 
 META = {
-    "bounds": "6 subscription documents (alias, fragment, literal/variable/default arguments, nested selection with a non-null leaf) + 3 invalid requests; event sequences of "
+    "bounds": "7 subscription documents (non-null root field, alias, fragment, literal/variable/default arguments, nested selection with a non-null leaf) + 3 invalid requests; event sequences of "
               "length 0..3 (0..2 in the quick tier) over unbounded ints / None (payloads that are well-formed, provoke a field error, or are null); gated source and gated consumer",
     "outside": "more than 3 events per stream; several concurrent subscriptions on one engine (C15 covers execute)",
     "explanation": "Each yielded response is compared with the response the payload must produce (C01/C02 semantics), position by position; source call counter and coerced source arguments checked.",
@@ -17,7 +17,7 @@ SDL = """
 type Leaf { n: Int! }
 type Mid { n: Int leaf: Leaf }
 type Query { a: Int }
-type Subscription { tick(n: Int = 2): Int  ev(k: Int): Mid }
+type Subscription { tick(n: Int = 2): Int  ev(k: Int): Mid  strict(n: Int): Int!  sev: Mid! }
 """
 ST = {"events": [], "gate": False}
 SRC_CALLS = []
@@ -40,6 +40,23 @@ async def _src_ev(parent, args, ctx, info):
         if ST["gate"]:
             await miniloop.gate("src")
         yield None if e is None else {"n": e, "leaf": {"n": None if e == 0 else e}}
+
+
+@Subscription("Subscription.strict", schema_name=NAME)
+async def _src_strict(parent, args, ctx, info):
+    SRC_CALLS.append(("strict", args))
+    for e in ST["events"]:
+        if ST["gate"]:
+            await miniloop.gate("src")
+        yield e
+
+
+@Resolver("Subscription.strict", schema_name=NAME)
+async def _rstrict(parent, args, ctx, info):
+    RES_CALLS.append(("strict", parent, args))
+    if parent is not None and parent < 0:
+        raise ValueError("neg")
+    return parent
 
 
 @Resolver("Subscription.tick", schema_name=NAME)
@@ -66,6 +83,7 @@ DOCS = [
     ("subscription { ...F } fragment F on Subscription { ev(k: 1) { n leaf { n } } }", "ev", "ev", {"k": 1}),
     ("subscription S($n: Int = 9) { ... on Subscription { x: ev(k: $n) { leaf { n } } } }", "ev", "x", None),
     ("subscription { tick(n: null) }", "tick", "tick", {"n": None}),
+    ("subscription { s: strict(n: 1) }", "strict", "s", {"n": 1}),          # non-null root field: a failing event nulls `data` of THAT response only
 ]
 BAD = [
     ("subscription { nope }", {}), ("subscription S($n: Int!) { tick(n: $n) }", {}), ("subscription S($n: Int) { tick(n: $n) }", {"n": "str"}), ("subscription { tick ev { n } }", {}),
@@ -149,13 +167,17 @@ def c14_stream(events: List[Optional[int]], arg: Optional[int], argmode: int, ga
     if len(got) != len(events):
         return verdict(False)
     for e, r in zip(events, got):
-        exp, nerr = expected_tick(key, e) if field == "tick" else expected_ev(key, e, "n leaf" in q)
+        if field == "strict":
+            bad = e is None or e < 0 or e >= I32
+            exp, nerr = ({"data": None}, 1) if bad else ({"data": {key: e}}, 0)
+        else:
+            exp, nerr = expected_tick(key, e) if field == "tick" else expected_ev(key, e, "n leaf" in q)
         if r.get("data") != exp["data"]:
             return verdict(False)
         errs = r.get("errors")
         if (nerr == 0) != (errs is None):
             return verdict(False)
-        if errs is not None and (len(errs) < 1 or errs[0]["path"][0] != key):
+        if errs is not None and (len(errs) < 1 or (errs[0]["path"] or [key])[0] != key):
             return verdict(False)
     if len(SRC_CALLS) != 1 or SRC_CALLS[0][0] != field:
         return verdict(False)
